@@ -1054,8 +1054,8 @@ def corpus():
     a, b, v = ["T", "a", None], ["T", "b", None], ["T", "v", None]
     sel = ["select", [["s", "x"]]]
     cs = [
-        # known finding: the automatic alias a<k> of a same-named join skips the names of the WITH queries present
-        # at the time of the call: WITH a2 first -> JOIN "a" "a3"; join first -> JOIN "a" "a2"
+        # repaired finding (10401de -> 2def80d): the automatic alias a<k> of a same-named join must not depend on
+        # whether WITH a2 is attached before or after the join (regression witness)
         {"cls": "Query", "prefix": [["from", a]],
          "calls": [["with", "a2", "1"], ["join", a, "inner", ["on", ["cmp", "eq", ["x", a], ["y", a]], None]], sel]},
         # repaired finding (160d589): a join criterion may name a WITH query attached later (regression witness)
